@@ -34,3 +34,37 @@ Theorem C03_corrupt_is_final : forall dict s t, status (inflate dict s) = Corrup
   /\ bitpos (inflate dict (s ++ t)) = bitpos (inflate dict s).
 Proof. exact (corrupt_stable inflate_mono). Qed.
 Print Assumptions C03_corrupt_is_final.
+
+(* ---- the same on the faithful engine model (RModel/Engine.v: the Go decoder, bufio, Read/step as
+   written), by refinement to the reference inflater (proofs/EngineRefine*.v, erun_sound).  For every
+   byte list, every cut into non-empty deliveries, every bufio size, either terminal and every list
+   of Read sizes: what the Reads hand out is a prefix of the reference output (nothing fabricated);
+   io.EOF is reported only if the reference says Done, and then everything has been handed out;
+   on a truncated or corrupt input no Read ever reports io.EOF. *)
+From Verif Require Import Engine EngineRefineSpecTop EngineRefineFinal EngineCorollaries.
+Theorem C03_engine_sound : forall data cs bufsize t reads,
+    Forall (fun x => x < 256) data -> concat cs = data -> Forall (fun c => c <> []) cs ->
+    let '(l, ncons) := erun_ext bufsize cs t reads in
+    is_prefix (results_bytes l) (out (Inflate.inflate [] data)) /\
+    (In REOF (map snd l) ->
+       status (Inflate.inflate [] data) = Done /\
+       results_bytes l = out (Inflate.inflate [] data) /\
+       ncons = (bitpos (Inflate.inflate [] data) + 7) / 8) /\
+    (status (Inflate.inflate [] data) <> Done -> ~ In REOF (map snd l)).
+Proof. exact erun_sound. Qed.
+Print Assumptions C03_engine_sound.
+Theorem C03_engine_bytes_are_prefix_of_any_extension : forall data more cs bufsize t reads,
+  bytes_ok data -> cut_of cs data ->
+  is_prefix (results_bytes (fst (erun_ext bufsize cs t reads))) (out (Inflate.inflate [] (data ++ more))).
+Proof. exact engine_bytes_are_prefix_of_any_extension. Qed.
+Print Assumptions C03_engine_bytes_are_prefix_of_any_extension.
+Theorem C03_engine_no_eof_on_truncated_or_corrupt : forall data cs bufsize t reads,
+  bytes_ok data -> cut_of cs data -> status (Inflate.inflate [] data) <> Done ->
+  ~ In REOF (map snd (fst (erun_ext bufsize cs t reads))).
+Proof. exact engine_no_eof_on_truncated_or_corrupt. Qed.
+Print Assumptions C03_engine_no_eof_on_truncated_or_corrupt.
+(* the stream that the implementation reported as a clean io.EOF before fix b29ee69 (found when this
+   proof could not be closed) *)
+Theorem C03_engine_trunc_regression : EngineRefineSpecFinal.trunc_stream_regression_statement.
+Proof. exact trunc_stream_regression. Qed.
+Print Assumptions C03_engine_trunc_regression.
